@@ -99,3 +99,6 @@ package aztec
 //@ func (*aztecCode).At
 //@   requires c != nil && c.BitList != nil && 0 <= x && x < c.size && 0 <= y && y < c.size && c.size <= 1000 && c.BitList.count == c.size * c.size
 //@   ensures result == (c.BitList.model[x*c.size + y] ? c.color.Foreground : c.color.Background)
+//@ func (*aztecCode).Content
+//@   requires c != nil
+//@   ensures len(result) == len(c.content) && (forall k int :: 0 <= k && k < len(c.content) ==> result[k] == c.content[k])
